@@ -581,8 +581,33 @@ fn run_history<Q: QueueBackend + 'static>(rng: &mut Rng, ctx: &mut Ctx, focus: F
     // interface last reported (it is not re-assigned before every message)
     let mut c = Context::default();
     let mut cur_mav = false;
+    let mut flood_pending: Option<u8> = None;
     for step in 0..nsteps {
         bump(ctx, 1);
+        // device code presetting one of the mandatory registers through the public helper of the ScpiDevice trait (what a
+        // device that overrides ScpiDevice::preset() to add registers of its own calls for OPERation and QUEStionable)
+        if rng.chance(1, 25) {
+            use scpi_contrib::scpi1999::ScpiDevice;
+            if rng.bool() {
+                dev.preset_register::<scpi_contrib::scpi1999::status::operation::Operation>();
+                m.oper.preset();
+                trace.push("[dev preset_register::<Operation>()]".into());
+            } else {
+                dev.preset_register::<scpi_contrib::scpi1999::status::questionable::Questionable>();
+                m.ques.preset();
+                trace.push("[dev preset_register::<Questionable>()]".into());
+            }
+            ctx.count("device-side.preset_register-helper");
+        }
+        // a device-detected error reported through ScpiDevice::push_error (not the result of a message): queued and flagged
+        if rng.chance(1, 25) {
+            use scpi_contrib::scpi1999::ScpiDevice;
+            let e = *rng.pick(fail_table());
+            dev.push_error(e);
+            m.record_error(item_of(&e));
+            trace.push(format!("[dev push_error({})]", e.get_code()));
+            ctx.count("device-side.push_error-helper");
+        }
         // device-side condition changes
         if rng.chance(if focus == Focus::C15 { 2 } else { 1 }, 5) {
             let which = if rng.bool() { Reg::Oper } else { Reg::Ques };
@@ -648,10 +673,44 @@ fn run_history<Q: QueueBackend + 'static>(rng: &mut Rng, ctx: &mut Ctx, focus: F
         let mu = if rng.chance(1, 4) { 4 } else { 2 };
         let nun = 1 + rng.usize(mu);
         let flood = step == 2 && !ctx.cfg.tiny && rng.chance(1, 40);
-        let units: Vec<U> = if flood { vec![U::Fail(rng.usize(fail_table().len()))] } else { (0..nun).map(|_| gen_unit(rng, focus)).collect() };
+        // how many failures pile up unread: 300 as a rule; on growable queues now and then a backlog around the limits of
+        // 12/16/17-bit counters (a controller that never reads SYSTem:ERRor?), which COUNt? / ALL? must still report exactly
+        let flood_n: usize = if !flood || Q::CAP.is_some() {
+            300
+        } else {
+            // (the library's Vec<Error> queue pops with remove(0): draining a six-figure backlog from it costs minutes, so the
+            // large backlogs go to the VecDeque queue; the commands under test are the same generic code)
+            let deque = Q::NAME.contains("Deque");
+            match rng.usize(100) {
+                0..=9 => 4090 + rng.usize(12),
+                10..=12 if deque => 65_530 + rng.usize(14),
+                13..=14 if deque => 131_066 + rng.usize(14),
+                _ => 300,
+            }
+        };
+        // straight after a backlog the controller asks how much there is, reads some, then all
+        let after_flood = flood_pending.take();
+        let units: Vec<U> = if flood {
+            vec![U::Fail(rng.usize(fail_table().len()))]
+        } else if let Some(k) = after_flood {
+            match k {
+                0 => vec![U::ErrCount],
+                1 => vec![U::ErrNext, U::ErrCount],
+                _ => vec![U::ErrAll, U::ErrCount],
+            }
+        } else {
+            (0..nun).map(|_| gen_unit(rng, focus)).collect()
+        };
         if flood {
-            ctx.count("histories.with-error-flood(300)");
-            for _ in 0..300 {
+            flood_pending = Some(0);
+        } else if let Some(k) = after_flood {
+            if k < 2 {
+                flood_pending = Some(k + 1);
+            }
+        }
+        if flood {
+            ctx.count(&format!("histories.with-error-flood({})", if flood_n == 300 { "300" } else if flood_n < 5000 { "~4096" } else if flood_n < 70_000 { "~65536" } else { "~131072" }));
+            for _ in 0..flood_n {
                 let k = rng.usize(fail_table().len());
                 let e = fail_table()[k];
                 let msg = format!(":TEST:FAIL {}", k);
@@ -664,7 +723,7 @@ fn run_history<Q: QueueBackend + 'static>(rng: &mut Rng, ctx: &mut Ctx, focus: F
                 }
                 m.record_error(item_of(&e));
             }
-            trace.push("[300 x :TEST:FAIL n]".into());
+            trace.push(format!("[{} x :TEST:FAIL n]", flood_n));
         }
         let mut msg: Vec<u8> = vec![];
         for (i, u) in units.iter().enumerate() {
